@@ -1,4 +1,5 @@
 import MorfuseModel.Lang.Sem
+import MorfuseModel.Lang.PrecTable
 import Driver.Util
 /-! driver for the reference semantics `Lang.Sem` (property C03): reads the AST payload of a `prog`
 line (after `##`), evaluates it and prints the canonical observation line of `harness/langrun.cpp` -/
@@ -206,7 +207,49 @@ def runLine (t : List String) : String :=
       | [] => "bad-op"
   | _ => "bad-op"
 
-def step (u : Unit) (t : List String) : Unit × String := (u, runLine t)
+/-! `tree` lines: the token list after `##` is parsed by the precedence-climbing model with the
+reference levels and printed in the s-expression format of the harness' parse-tree dump -/
+open Morfuse.Lang.Prec in
+def parseTok : String → Option Tok
+  | "(" => some .lp | ")" => some .rp
+  | "||" => some (.op .lor) | "&&" => some (.op .land) | "|" => some (.op .bor) | "^" => some (.op .bxor)
+  | "&" => some (.op .band) | "==" => some (.op .eq) | "!=" => some (.op .ne) | "<" => some (.op .lt)
+  | ">" => some (.op .gt) | "<=" => some (.op .le) | ">=" => some (.op .ge) | "<<" => some (.op .shl)
+  | ">>" => some (.op .shr) | "+" => some (.op .add) | "-" => some (.op .sub) | "*" => some (.op .mul)
+  | "/" => some (.op .div) | "%" => some (.op .mod)
+  | "neg" => some (.un .neg) | "~" => some (.un .compl) | "!" => some (.un .not)
+  | s => match s.toList with
+    | 'a' :: t => (String.ofList t).toNat?.map Tok.atom
+    | _ => none
+
+open Morfuse.Lang.Prec in
+def opText : Op → String
+  | .lor => "||" | .land => "&&" | .bor => "|" | .bxor => "^" | .band => "&" | .eq => "==" | .ne => "!="
+  | .lt => "<" | .gt => ">" | .le => "<=" | .ge => ">=" | .shl => "<<" | .shr => ">>" | .add => "+"
+  | .sub => "-" | .mul => "*" | .div => "/" | .mod => "%"
+
+open Morfuse.Lang.Prec in
+def showPT : PT → String
+  | .atom n => s!"(int {n})"
+  | .un .neg a => s!"(un neg {showPT a})"
+  | .un .compl a => s!"(un ~ {showPT a})"
+  | .un .not a => s!"(not {showPT a})"
+  | .bin .land a b => s!"(and {showPT a} {showPT b})"
+  | .bin .lor a b => s!"(or {showPT a} {showPT b})"
+  | .bin o a b => s!"(bin {opText o} {showPT a} {showPT b})"
+
+def runTree (t : List String) : String :=
+  match (t.dropWhile (· != "##")).drop 1 |>.mapM parseTok with
+  | none => "bad-op"
+  | some toks =>
+    match Morfuse.Lang.Prec.parse Morfuse.Lang.PrecTable.refLv toks with
+    | some e => "tree " ++ showPT e
+    | none => "err ParseError"
+
+def step (u : Unit) (t : List String) : Unit × String :=
+  match t with
+  | "tree" :: _ => (u, runTree t)
+  | _ => (u, runLine t)
 
 def main : IO Unit := Driver.runLoop step ()
 
